@@ -48,6 +48,27 @@ NUM_KEYS = [3, 2.5, 1, 0.5, 7, 0, 4.25, 10, -1, 6.5] + [20 + i for i in range(40
 SORT_KEYS = {'parity': lambda k: (int(k * 2) if not isinstance(k, str) else (ord(k[0]) if k else 0)) % 2, 'const': lambda k: 0}
 
 
+class SourceFailed(Exception):
+    pass
+
+
+def failing_iter(pairs):
+    for p in pairs:
+        yield p
+    raise SourceFailed('the iterator failed')
+
+
+def source_failed_outcomes(items, outs):
+    """update()/extend() from a source that raises after some pairs: the pairs handed over are in (consumed one by
+    one) or none is (the source was read completely first); the source's exception comes out."""
+    if outs[0][0] != 'ok':
+        return outs          # an item before the failure was refused: that refusal comes first
+    res = [('raise', {'SourceFailed'}, outs[0][1])]
+    if outs[0][1] != items:
+        res.append(('raise', {'SourceFailed'}, items))
+    return res
+
+
 class Refuser(object):
     """Injected validator: refuses a seeded subset of values (the fault of this engine)."""
 
@@ -211,6 +232,8 @@ class C16(BaseCheck):
                                                                     {'special': 'remove'} if r.random() < 0.05 else 1000 * (jj + 1) + j)]
                                                       for jj in range(m)],
                             'as': r.choice(['pairs', 'dict', 'iter'])})
+                if ops[-1]['as'] == 'iter' and r.random() < 0.1:
+                    ops[-1]['raise_at'] = r.randrange(m + 1)       # the source of the pairs fails part-way
             elif op == 'clear':
                 ops.append({'op': 'clear'})
             elif op == 'sort':
@@ -234,6 +257,8 @@ class C16(BaseCheck):
                      'as': r.choice(['pairs', 'dict', 'sd', 'gen', 'zip', 'iter', 'sd-rev', 'sd-front'])}
                 if r.random() < p_refuse:
                     o['replace'] = False
+                if o['as'] in ('gen', 'iter') and r.random() < 0.12:
+                    o['raise_at'] = r.randrange(len(o['pairs']) + 1)
                 ops.append(o)
         case['observe_every'] = k.choice([1, 1, 1, 2, 3, 5, 0])     # 0 = only after the last operation
         if k.random() < 0.3:
@@ -351,6 +376,9 @@ class C16(BaseCheck):
             return m.setdefault(o['k'], mkval(o['v']))
         if op == 'update':
             pairs = [(k, mkval(v)) for k, v in o['pairs']]
+            if 'raise_at' in o:
+                m.update(failing_iter(pairs[:o['raise_at']]))
+                return None
             m.update(dict(pairs) if o.get('as') == 'dict' else iter(pairs) if o.get('as') == 'iter' else pairs)
             return None
         if op == 'clear':
@@ -389,6 +417,9 @@ class C16(BaseCheck):
                     src.add_item(last, lastv, index=0)
                 m.extend(src, **kw)
                 return None
+            if 'raise_at' in o:
+                m.extend(failing_iter(pairs[:o['raise_at']]), **kw)
+                return None
             src = dict(pairs) if how == 'dict' else SortableDict(pairs) if how == 'sd' else \
                 (p for p in pairs) if how == 'gen' else zip([p[0] for p in pairs], [p[1] for p in pairs]) if how == 'zip' else \
                 iter(pairs) if how == 'iter' else pairs       # one-shot iterables are legal arguments too
@@ -419,6 +450,8 @@ class C16(BaseCheck):
             pairs = [(k, mkval(v)) for k, v in o['pairs']]
             if o.get('as') == 'dict':
                 pairs = list(dict(pairs).items())
+            if 'raise_at' in o:
+                return source_failed_outcomes(items, om.sequence_outcomes(items, pairs[:o['raise_at']], True, refuses))
             return om.sequence_outcomes(items, pairs, True, refuses)
         if op == 'clear':
             return om.clear_outcomes(items)
@@ -444,6 +477,8 @@ class C16(BaseCheck):
                     pairs = pairs[::-1]
                 elif o.get('as') == 'sd-front' and len(pairs) > 1:
                     pairs = [pairs[-1]] + pairs[:-1]
+            if 'raise_at' in o:
+                return source_failed_outcomes(items, om.sequence_outcomes(items, pairs[:o['raise_at']], o.get('replace', True), refuses))
             return om.sequence_outcomes(items, pairs, o.get('replace', True), refuses)
         raise AssertionError(op)
 
@@ -589,6 +624,8 @@ class C16(BaseCheck):
             if viol:
                 break
             steps += 1
+            if 'raise_at' in o:
+                stats['fault.pair_source_fails_midway'] = stats.get('fault.pair_source_fails_midway', 0) + 1
             w = (o.get('m', 0) % len(worlds)) if two else 0
             m, grid, refuses, items = worlds[w]
             outs = self._outcomes(items, o, refuses)
@@ -671,6 +708,9 @@ class C16(BaseCheck):
                                                          'before': before, 'after': got,
                                                          'acceptable': [[x[0], sorted(x[1]) if x[0] == 'raise' else x[1]] for x in outs][:4]}}
                     break
+                hit = [x for x in acc if x[2] == got]
+                if hit:
+                    acc = hit
                 if got != acc[0][2]:
                     viol = {'clause': 'refused-changed', 'detail': {'step': step, 'op': o, 'exc': ename,
                                                                     'before': before, 'after': got, 'expected_after': acc[0][2]}}
